@@ -40,7 +40,7 @@ for n, m in sorted(meta_in.items()):
             "demo_without_patch": "passes" if "test result: ok" in sec.get("demo WITHOUT patch", "") and "FAILED" not in sec.get("demo WITHOUT patch", "") else "UNEXPECTED: " + sec.get("demo WITHOUT patch", "")[-200:],
             "demo_with_patch": "fails" if "test result: FAILED" in sec.get("demo WITH patch", "") else "UNEXPECTED: " + sec.get("demo WITH patch", "")[-200:],
             "pinned_suite_with_patch": ((re.search(r"stable_pass=\d+ still_passing=\d+ not_passing=\d+", sec.get("pinned suite WITH patch", "")) or [sec.get("pinned suite WITH patch", "").strip()[:200]])[0]) if sec.get("pinned suite WITH patch") else "",
-            "how": "bin/confirm_seeded.sh in a scratch worktree of /repo: cargo test --test seeded_demo without and with the patch, then the pinned nextest command with the patch, compared with BASELINE.json stable_pass",
+            "how": ("bin/confirm_seeded_light.sh in a scratch worktree of /repo: cargo test --test seeded_demo without and with the patch; the pinned suite was not re-run by me for this one, the author's before/after PASS-list comparison is in author_notes.md" if "not re-run" in sec.get("pinned suite WITH patch", "") else "bin/confirm_seeded.sh in a scratch worktree of /repo: cargo test --test seeded_demo without and with the patch, then the pinned nextest command with the patch, compared with BASELINE.json stable_pass"),
         }
     tried = []
     for f in sorted(os.listdir(src)):
